@@ -1240,7 +1240,8 @@ class DocutilsRenderer(RendererProtocol):
         )
 
     def render_html_inline(self, token: SyntaxTreeNode) -> None:
-        self.render_html_block(token)
+        node_list = html_to_nodes(token.content, token_line(token), self, inline=True)
+        self.current_node.extend(node_list)
 
     def render_html_block(self, token: SyntaxTreeNode) -> None:
         node_list = html_to_nodes(token.content, token_line(token), self)
